@@ -151,8 +151,10 @@ def load_findings(prop_id: str):
 
 
 def load_obligations(prop_id: str):
-    data = json.load(open(os.path.join(VERIF, "obligations.json")))
-    return data.get(prop_id, {"theorems": [], "notes": ""})
+    p = os.path.join(VERIF, "obligations", f"{prop_id}.json")
+    if not os.path.exists(p):
+        return {"theorems": [], "notes": ""}
+    return json.load(open(p))
 
 
 def load_corpus(prop_id: str):
